@@ -398,7 +398,7 @@ def shapes():
     for mn, op in (("shld", "S1_OP_SHLD"), ("shrd", "S1_OP_SHRD")):
         add(mn, op, [R(GV), R(GV), Imm("hex", False)], "shxd.rri", [P3, P1], "quick", extra_constrain=SAMEW2 + " ASSUME(V_IMM <= 0xff);",
             expect=opsize_is(W0) + ' CHECK(DI.has_imm && (DI.imm & 0xff) == V_IMM, "shift count is the written value");')
-        if mn == "shld":
+        if True:
             add(mn, op, [R(GV), R(GV), R('R8', fixed=('R8', 1))], "shxd.rrcl", [P1], "quick", extra_constrain=SAMEW2, exp_opds=[0, 1, 'cl'], expect=opsize_is(W0))
         for f in ("b+d", "b+i*4+d"):
             add(mn, op, [Mem(f), R(GV), Imm("hex", False)], "shxd.mri", [P3, P2], "thorough", extra_constrain="ASSUME(V_IMM <= 0xff);",
@@ -536,7 +536,7 @@ def branch_shapes():
                        ' CHECK(DI.nopd == 1 && OPD_KIND(0, S1_K_REL), "one relative target");' +
                        ' CHECK(DI.rel == (long)V_IMM, "displacement field equals d");' +
                        ' CHECK(DI.rel_bits == 8 || DI.rel_bits == 32, "rel8 or rel32 form");')
-                if kw == "long":
+                if kw == "long" and has8 != "only8":
                     chk += ' CHECK(DI.rel_bits == 32, "long forces rel32");'
                 sh = Shape(mn, op, [Imm(cls, neg)], "branch.rel", ["C05"], q, prefix_kw=kw, extra_constrain=pre, exp_opds=['rel'], expect=chk)
                 sh.no_opd_checks = True
